@@ -88,17 +88,18 @@ func (p *CPU) execInst(bus *device.Bus, as abi.As, arg *abi.AsRawArgument) error
 	case riscv.ALUI:
 		p.RegX[arg.Rd] = RVUInt(arg.Imm << 12)
 	case riscv.AAUIPC:
-		p.RegX[arg.Rd] = curPC + RVUInt(arg.Imm)
+		p.RegX[arg.Rd] = curPC + RVUInt(arg.Imm<<12)
 	case riscv.AJAL:
 		// rd 寄存器先保存下一个指令对应的 PC
 		p.RegX[arg.Rd] = p.PC
 		// 然后根据当前指令对应的 PC 计算出跳转地址覆盖当前的 PC
 		p.PC = curPC + RVUInt(arg.Imm)
 	case riscv.AJALR:
-		// rd 寄存器先保存下一个指令对应的 PC
+		// 先计算跳转地址(rd 可能和 rs1 相同), 最低位清零
+		target := (p.RegX[arg.Rs1] + RVUInt(arg.Imm)) &^ 1
+		// rd 寄存器保存下一个指令对应的 PC
 		p.RegX[arg.Rd] = p.PC
-		// 然后根据计算出跳转地址覆盖当前的 PC
-		p.PC = p.RegX[arg.Rs1] + RVUInt(arg.Imm)
+		p.PC = target
 	case riscv.ABEQ:
 		if p.RegX[arg.Rs1] == p.RegX[arg.Rs2] {
 			p.PC = curPC + RVUInt(arg.Imm)
@@ -108,11 +109,11 @@ func (p *CPU) execInst(bus *device.Bus, as abi.As, arg *abi.AsRawArgument) error
 			p.PC = curPC + RVUInt(arg.Imm)
 		}
 	case riscv.ABLT:
-		if int64(p.RegX[arg.Rs1]) < int64(p.RegX[arg.Rs2]) {
+		if RVInt(p.RegX[arg.Rs1]) < RVInt(p.RegX[arg.Rs2]) {
 			p.PC = curPC + RVUInt(arg.Imm)
 		}
 	case riscv.ABGE:
-		if int64(p.RegX[arg.Rs1]) > int64(p.RegX[arg.Rs2]) {
+		if RVInt(p.RegX[arg.Rs1]) >= RVInt(p.RegX[arg.Rs2]) {
 			p.PC = curPC + RVUInt(arg.Imm)
 		}
 	case riscv.ABLTU:
@@ -120,7 +121,7 @@ func (p *CPU) execInst(bus *device.Bus, as abi.As, arg *abi.AsRawArgument) error
 			p.PC = curPC + RVUInt(arg.Imm)
 		}
 	case riscv.ABGEU:
-		if p.RegX[arg.Rs1] > p.RegX[arg.Rs2] {
+		if p.RegX[arg.Rs1] >= p.RegX[arg.Rs2] {
 			p.PC = curPC + RVUInt(arg.Imm)
 		}
 	case riscv.ALB:
@@ -179,7 +180,7 @@ func (p *CPU) execInst(bus *device.Bus, as abi.As, arg *abi.AsRawArgument) error
 	case riscv.AADDI:
 		p.RegX[arg.Rd] = p.RegX[arg.Rs1] + RVUInt(arg.Imm)
 	case riscv.ASLTI:
-		if int64(p.RegX[arg.Rs1]) < int64(arg.Imm) {
+		if RVInt(p.RegX[arg.Rs1]) < RVInt(arg.Imm) {
 			p.RegX[arg.Rd] = 1
 		} else {
 			p.RegX[arg.Rd] = 0
@@ -201,15 +202,15 @@ func (p *CPU) execInst(bus *device.Bus, as abi.As, arg *abi.AsRawArgument) error
 	case riscv.ASRLI:
 		p.RegX[arg.Rd] = p.RegX[arg.Rs1] >> arg.Imm
 	case riscv.ASRAI:
-		p.RegX[arg.Rd] = RVUInt(int64(p.RegX[arg.Rs1]) >> arg.Imm)
+		p.RegX[arg.Rd] = RVUInt(RVInt(p.RegX[arg.Rs1]) >> arg.Imm)
 	case riscv.AADD:
 		p.RegX[arg.Rd] = p.RegX[arg.Rs1] + p.RegX[arg.Rs2]
 	case riscv.ASUB:
 		p.RegX[arg.Rd] = p.RegX[arg.Rs1] - p.RegX[arg.Rs2]
 	case riscv.ASLL:
-		p.RegX[arg.Rd] = p.RegX[arg.Rs1] << RVUInt(arg.Imm)
+		p.RegX[arg.Rd] = p.RegX[arg.Rs1] << (p.RegX[arg.Rs2] & (XLEN - 1))
 	case riscv.ASLT:
-		if int64(p.RegX[arg.Rs1]) < int64(p.RegX[arg.Rs2]) {
+		if RVInt(p.RegX[arg.Rs1]) < RVInt(p.RegX[arg.Rs2]) {
 			p.RegX[arg.Rd] = 1
 		} else {
 			p.RegX[arg.Rd] = 0
@@ -223,9 +224,9 @@ func (p *CPU) execInst(bus *device.Bus, as abi.As, arg *abi.AsRawArgument) error
 	case riscv.AXOR:
 		p.RegX[arg.Rd] = p.RegX[arg.Rs1] ^ p.RegX[arg.Rs2]
 	case riscv.ASRL:
-		p.RegX[arg.Rd] = p.RegX[arg.Rs1] >> RVUInt(arg.Imm)
+		p.RegX[arg.Rd] = p.RegX[arg.Rs1] >> (p.RegX[arg.Rs2] & (XLEN - 1))
 	case riscv.ASRA:
-		p.RegX[arg.Rd] = RVUInt(int64(p.RegX[arg.Rs1]) >> RVUInt(arg.Imm))
+		p.RegX[arg.Rd] = RVUInt(RVInt(p.RegX[arg.Rs1]) >> (p.RegX[arg.Rs2] & (XLEN - 1)))
 	case riscv.AOR:
 		p.RegX[arg.Rd] = p.RegX[arg.Rs1] | p.RegX[arg.Rs2]
 	case riscv.AAND:
@@ -256,6 +257,11 @@ func (p *CPU) execInst(bus *device.Bus, as abi.As, arg *abi.AsRawArgument) error
 		}
 		p.RegX[arg.Rd] = RVUInt(value)
 	case riscv.ASD:
+		addr := p.RegX[arg.Rs1] + RVUInt(arg.Imm)
+		value := p.RegX[arg.Rs2]
+		if err := bus.Write(uint64(addr), 8, uint64(value)); err != nil {
+			return err
+		}
 	case riscv.AADDIW:
 		p.RegX[arg.Rd] = RVUInt(int32(p.RegX[arg.Rs1] + RVUInt(arg.Imm)))
 	case riscv.ASLLIW:
@@ -270,12 +276,12 @@ func (p *CPU) execInst(bus *device.Bus, as abi.As, arg *abi.AsRawArgument) error
 	case riscv.ASUBW:
 		p.RegX[arg.Rd] = RVUInt(int32(p.RegX[arg.Rs1]) - int32(p.RegX[arg.Rs2]))
 	case riscv.ASLLW:
-		p.RegX[arg.Rd] = RVUInt(int32(p.RegX[arg.Rs1] << arg.Imm))
+		p.RegX[arg.Rd] = RVUInt(int32(uint32(p.RegX[arg.Rs1]) << (p.RegX[arg.Rs2] & 31)))
 	case riscv.ASRLW:
-		p.RegX[arg.Rd] = RVUInt(int32(uint32(p.RegX[arg.Rs1]) << arg.Imm))
+		p.RegX[arg.Rd] = RVUInt(int32(uint32(p.RegX[arg.Rs1]) >> (p.RegX[arg.Rs2] & 31)))
 
 	case riscv.ASRAW:
-		p.RegX[arg.Rd] = RVUInt(int32(p.RegX[arg.Rs1] >> arg.Imm))
+		p.RegX[arg.Rd] = RVUInt(int32(p.RegX[arg.Rs1]) >> (p.RegX[arg.Rs2] & 31))
 
 	// RV32/RV64 Zicsr Standard Extension
 
@@ -310,7 +316,7 @@ func (p *CPU) execInst(bus *device.Bus, as abi.As, arg *abi.AsRawArgument) error
 		return fmt.Errorf("%s: unsupport", riscv.AsString(as, ""))
 	case riscv.ADIV:
 		if p.RegX[arg.Rs2] != 0 {
-			p.RegX[arg.Rd] = RVUInt(int64(p.RegX[arg.Rs1]) / int64(p.RegX[arg.Rs2]))
+			p.RegX[arg.Rd] = RVUInt(RVInt(p.RegX[arg.Rs1]) / RVInt(p.RegX[arg.Rs2]))
 		} else {
 			v := int64(-1)
 			p.RegX[arg.Rd] = RVUInt(v)
@@ -325,7 +331,7 @@ func (p *CPU) execInst(bus *device.Bus, as abi.As, arg *abi.AsRawArgument) error
 
 	case riscv.AREM:
 		if p.RegX[arg.Rs2] != 0 {
-			p.RegX[arg.Rd] = RVUInt(int32(p.RegX[arg.Rs1]) % int32(p.RegX[arg.Rs2]))
+			p.RegX[arg.Rd] = RVUInt(RVInt(p.RegX[arg.Rs1]) % RVInt(p.RegX[arg.Rs2]))
 		} else {
 			p.RegX[arg.Rd] = p.RegX[arg.Rs1]
 		}
@@ -341,30 +347,30 @@ func (p *CPU) execInst(bus *device.Bus, as abi.As, arg *abi.AsRawArgument) error
 	case riscv.AMULW:
 		p.RegX[arg.Rd] = RVUInt(int32(p.RegX[arg.Rs1]) * int32(p.RegX[arg.Rs2]))
 	case riscv.ADIVW:
-		if p.RegX[arg.Rs2] != 0 {
+		if int32(p.RegX[arg.Rs2]) != 0 {
 			p.RegX[arg.Rd] = RVUInt(int32(p.RegX[arg.Rs1]) / int32(p.RegX[arg.Rs2]))
 		} else {
 			v := int64(-1)
 			p.RegX[arg.Rd] = RVUInt(v)
 		}
 	case riscv.ADIVUW:
-		if p.RegX[arg.Rs2] != 0 {
-			p.RegX[arg.Rd] = RVUInt(uint32(p.RegX[arg.Rs1]) / uint32(p.RegX[arg.Rs2]))
+		if uint32(p.RegX[arg.Rs2]) != 0 {
+			p.RegX[arg.Rd] = RVUInt(int32(uint32(p.RegX[arg.Rs1]) / uint32(p.RegX[arg.Rs2])))
 		} else {
 			v := int64(-1)
 			p.RegX[arg.Rd] = RVUInt(v)
 		}
 	case riscv.AREMW:
-		if p.RegX[arg.Rs2] != 0 {
+		if int32(p.RegX[arg.Rs2]) != 0 {
 			p.RegX[arg.Rd] = RVUInt(int32(p.RegX[arg.Rs1]) % int32(p.RegX[arg.Rs2]))
 		} else {
-			p.RegX[arg.Rd] = p.RegX[arg.Rs1]
+			p.RegX[arg.Rd] = RVUInt(int32(p.RegX[arg.Rs1]))
 		}
 	case riscv.AREMUW:
-		if p.RegX[arg.Rs2] != 0 {
-			p.RegX[arg.Rd] = RVUInt(uint32(p.RegX[arg.Rs1]) % uint32(p.RegX[arg.Rs2]))
+		if uint32(p.RegX[arg.Rs2]) != 0 {
+			p.RegX[arg.Rd] = RVUInt(int32(uint32(p.RegX[arg.Rs1]) % uint32(p.RegX[arg.Rs2])))
 		} else {
-			p.RegX[arg.Rd] = RVUInt(uint32(p.RegX[arg.Rs1]))
+			p.RegX[arg.Rd] = RVUInt(int32(p.RegX[arg.Rs1]))
 		}
 	}
 	return nil
